@@ -15,8 +15,8 @@ Oracle  : history check on the trace (P = messages handed to _post_async / _buff
    stranded   `_message_buffer` is empty
    duplicate  a message is delivered again only if an earlier attempt of it failed
    seqno      all attempts of one message carry one sequence number (!= -1); distinct messages distinct numbers
-   order      for every run r: a TagsUpdatedMsg(run_id=r) that went through the buffer before RunStoppedMsg(r) was
-              produced is first-delivered before RunStoppedMsg(r)
+   order      for every run r: a TagsUpdatedMsg(run_id=r) produced before RunStoppedMsg(r) that was in the buffer when the
+              attempt that first delivered RunStoppedMsg(r) started is first-delivered before RunStoppedMsg(r)
 Each scenario is run on the unmodified runner; if that run shows the known defect "orphaned buffer_messages tasks"
 (see NEUTRALISE_ORPHAN_BUFFER_TASKS) it is run a second time with those tasks cancelled by the harness, so that the
 rest of the behaviour is judged without the noise of that defect.
@@ -45,7 +45,8 @@ ASSUMPTIONS = [
     "reached the fake aggregator's dispatch_message_async",
     "'once the engine reports it has caught up' is judged at the end of the scenario: runner Connected/Reconnected, network up and no "
     "failed attempt for 6 virtual seconds; messages produced in the last 2.5 s are not judged for delivery",
-    "'run data buffered for a run' = TagsUpdatedMsg(run_id=r) that passed through _message_buffer before RunStoppedMsg(r) was produced",
+    "'run data buffered for a run' = TagsUpdatedMsg(run_id=r) produced before RunStoppedMsg(r) that was put into _message_buffer no "
+    "later than the start of the wire attempt that first delivered RunStoppedMsg(r)",
     "engine events are applied from the loop thread at engine-tick granularity (the production engine thread posts with "
     "run_coroutine_threadsafe as well); the engine starts ticking at the first steady state, like production",
     "scenarios that do not settle within 90 s of fault-free tail are counted (class unsettled:<state>) and judged only for "
@@ -228,9 +229,13 @@ def judge(tr: dict, neutralised: bool):
         n_del[d[2]] = n_del.get(d[2], 0) + 1
     last_buf: dict[int, tuple] = {}
     first_buf: dict[int, tuple] = {}
-    for b in tr["buffered"]:
+    first_buf_idx: dict[int, int] = {}
+    last_buf_idx: dict[int, int] = {}
+    for i, b in enumerate(tr["buffered"]):
         last_buf[b[1]] = b
         first_buf.setdefault(b[1], b)
+        first_buf_idx.setdefault(b[1], i)
+        last_buf_idx[b[1]] = i
 
     def how_buffered(m):
         b = last_buf.get(m)
@@ -278,11 +283,14 @@ def judge(tr: dict, neutralised: bool):
         ms = sp["m"]
         if ms not in first_del:
             continue
+        # the wire attempt that first delivered the stop: run data (produced before the stop) that was in the buffer when that
+        # attempt was started is "run data buffered for the run" and has to arrive first
+        stop_att = min((a for a in tr["attempts"] if a["m"] == ms and a["t_del"] is not None), key=lambda a: a["k"])
         for p in posts:
             if p["type"] != "TagsUpdatedMsg" or p["run_id"] != sp["run_id"] or p["m"] >= ms:
                 continue
             fb = first_buf.get(p["m"])
-            if fb is None or fb[0] > sp["t"]:
+            if fb is None or fb[0] > stop_att["t_send"]:
                 continue
             mt = p["m"]
             late = first_del.get(mt, None)
@@ -292,19 +300,25 @@ def judge(tr: dict, neutralised: bool):
                 continue
             orphan = fb[3] == "orphan_buffer_task" and fb[2] not in ("Failed", "Disconnected", "Reconnecting")
             mech = "stop-%s-in-%s" % ("posted" if sp["via"] == "post" else sp["via"], sp["state"])
-            sb = first_buf.get(ms)
-            n_tb = sum(1 for b in tr["buffered"] if b[1] == mt)
-            if sp["state"] in ("Failed", "Disconnected", "Reconnecting") and sb is not None and sb[0] >= fb[0] and n_tb >= 2 \
-                    and last_buf[mt][0] > sb[0] and any(
-                    a["m"] == ms and a["t_send"] >= last_buf[mt][0] for a in tr["attempts"]):
-                # the stop was produced while disconnected, so both were in the buffer in the right order; the tags message failed
-                # on resend and was put back BEHIND the stop, which was still waiting in the buffer (first sent only afterwards)
+            i_t, i_s = first_buf_idx[mt], first_buf_idx.get(ms)
+            failed_before_buffering = any(a["m"] == mt and a["result"].startswith("fail") and a["t_end"] is not None
+                                          and a["t_end"] <= fb[0] for a in tr["attempts"])
+            if sp["state"] in ("Failed", "Disconnected", "Reconnecting") and i_s is not None and i_s < i_t and failed_before_buffering:
+                # the tags message was on the wire when the connection failed; _post_async publishes state Failed and then awaits
+                # the state task BEFORE it buffers the message, so the stop produced in that window was buffered ahead of it
+                mech = "failed-post-buffered-behind-later-stop"
+            elif sp["state"] in ("Failed", "Disconnected", "Reconnecting") and i_s is not None and i_t < i_s \
+                    and last_buf_idx[mt] > i_s and any(a["m"] == ms and a["t_send"] >= last_buf[mt][0] for a in tr["attempts"]) \
+                    and not any(a["m"] == ms and a["t_send"] < last_buf[mt][0] for a in tr["attempts"]):
+                # the stop was produced while disconnected and both were in the buffer in the right order; the tags message failed
+                # on resend and was put back BEHIND the stop, which was still waiting in the buffer (never sent before)
                 mech = "failed-resend-requeued-behind-waiting-stop"
             sig = ("orphan-buffer-task:stop-overtakes-buffered-run-data" if orphan
                    else "order:stop-overtakes-buffered-run-data:%s" % mech)
-            viol(sig, "run %s: TagsUpdatedMsg #%d was buffered at t=%.2f (%s) before RunStoppedMsg #%d was produced at t=%.2f in state %s, "
+            viol(sig, "run %s: TagsUpdatedMsg #%d (produced at t=%.2f) was buffered at t=%.2f (%s, buffer event %d); RunStoppedMsg #%d was "
+                      "produced at t=%.2f in state %s (buffer event %s, first delivering attempt sent at t=%.2f), "
                       "but the stop notification reached the aggregator first (stop delivery no. %d, tags %s)"
-                 % (sp["run_id"], mt, fb[0], how_buffered(mt), ms, sp["t"], sp["state"], first_del[ms],
+                 % (sp["run_id"], mt, p["t"], fb[0], how_buffered(mt), i_t, ms, sp["t"], sp["state"], i_s, stop_att["t_send"], first_del[ms],
                     "delivery no. %d" % late if late is not None else "never delivered"))
             break
 
